@@ -66,6 +66,7 @@ impl ReadXml for Capabilities {
                     tracing::debug!(?span, "parsing capability");
                     _ = inner.insert(span.trim().parse()?);
                 }
+                (_, Event::Comment(_)) => continue,
                 (_, Event::End(tag)) if tag == end => break,
                 (ns, event) => {
                     tracing::error!(?event, ?ns, "unexpected xml event");
